@@ -2,8 +2,11 @@
 //! See /verif/DESIGN.md. Exit codes: 0 = ran (verdicts are in the JSON output), 2 = harness error.
 
 mod alloc;
+mod allocs;
 mod catalog;
+mod dict;
 mod guard;
+mod huff;
 mod idx;
 mod observe;
 mod ops;
@@ -14,6 +17,7 @@ mod sim;
 mod spec;
 mod sut;
 mod table;
+mod twin;
 mod value;
 
 use serde_json::{json, Value as J};
@@ -57,6 +61,46 @@ fn special(engine: &str, prop: u8) -> Vec<DynScen> {
     match (engine, prop) {
         ("idx", 5) => (0..4).map(|c| dynscen(idx::IdxScen { container: c, prop: 5 })).collect(),
         ("idx", 19) => [1u8, 2, 4, 5].iter().map(|c| dynscen(idx::IdxScen { container: *c, prop: 19 })).collect(),
+        ("allocs", 17) => table::entries()
+            .iter()
+            .filter(|e| table::applies(17, e))
+            .map(|e| {
+                let (b, r) = (e.allocs_batch, e.allocs_replay);
+                DynScen { name: e.name.clone(), batch: Box::new(move |bc| b(bc)), replay: Box::new(move |j| r(j)) }
+            })
+            .collect(),
+        ("twin", 11) => {
+            use catalog::*;
+            use std::marker::PhantomData as PD;
+            fn s_str(v: &String, out: &mut Vec<(usize, Vec<u8>, usize)>) {
+                out.push((0, v.as_bytes().to_vec(), v.len()));
+            }
+            fn s_tup(v: &(u64, Vec<()>, String), out: &mut Vec<(usize, Vec<u8>, usize)>) {
+                out.push((1, (v.1.len() as u64).to_le_bytes().to_vec(), 0));
+                out.push((2, v.2.as_bytes().to_vec(), v.2.len()));
+            }
+            fn s_cols(v: &Vec<String>, out: &mut Vec<(usize, Vec<u8>, usize)>) {
+                for (i, s) in v.iter().enumerate() {
+                    out.push((i, s.as_bytes().to_vec(), s.len()));
+                }
+            }
+            fn s_slice(v: &Vec<String>, out: &mut Vec<(usize, Vec<u8>, usize)>) {
+                for s in v {
+                    out.push((0, s.as_bytes().to_vec(), s.len()));
+                }
+            }
+            vec![
+                dynscen(twin::TwinScen::<CollapseStr, Str> { streams: s_str, byte_identity: true, skip_first_pair: false, _m: PD }),
+                dynscen(twin::TwinScen::<TupCollapse, TupPlain> { streams: s_tup, byte_identity: true, skip_first_pair: false, _m: PD }),
+                dynscen(twin::TwinScen::<ColsCollapseStr, ColsStr> { streams: s_cols, byte_identity: true, skip_first_pair: true, _m: PD }),
+                dynscen(twin::TwinScen::<SliceCollapseStr, SliceStr> { streams: s_slice, byte_identity: true, skip_first_pair: false, _m: PD }),
+                dynscen(twin::TwinScen::<CollapsePairsStr, PairsStrOpt> { streams: s_str, byte_identity: false, skip_first_pair: false, _m: PD }),
+                dynscen(twin::TwinScen::<ColsCollapsePairsStr, ColsPairsStr> { streams: s_cols, byte_identity: false, skip_first_pair: false, _m: PD }),
+                dynscen(twin::TwinScen::<SliceCollapsePairsStrOpt, SlicePairsStrOpt> { streams: s_slice, byte_identity: false, skip_first_pair: false, _m: PD }),
+            ]
+        }
+        ("dict", 7) => vec![dynscen(dict::DictScen)],
+        ("huff", 6) => vec![dynscen(huff::HuffScen { wide: false }), dynscen(huff::HuffScen { wide: true })],
         _ => Vec::new(),
     }
 }
